@@ -16,6 +16,21 @@ CHECKS = {
  "C13": ("differential monitor of the three HMM algorithms against long-double path enumeration / scaled forward-backward references, history-independence probes; " + SAN,
          "Harness-supplied alphabet, emissions (with parameters) and transition doubles with exactly stationary start; 1..5 states, lengths up to 12 (enumeration) and 5000 (scaled long-double reference), sparse/zero transitions, emissions down to 1e-200, every break-point subset and chunk size; log-likelihood, posteriors, per-site likelihoods, first/second derivatives (vs jets checked against finite differences) compared for the three algorithms; the same queries are re-issued in every order interleaved with parameter updates; built-in transition matrices checked for row sums and stationarity in every query order.",
          "6/C13"),
+ "C08": ("in-process monitor of range/monotonicity/identities/inverse consistency/error signals on dense grids and random points + offline oracle over the recorded event log (scipy bulk, disagreements confirmed by mpmath at 50 digits; python3-vt); " + SAN,
+         "pNorm/qNorm/pGamma/qGamma/pChisq/qChisq/pBeta/qBeta/incompleteGamma/incompleteBeta/lnBeta/lnGamma over the documented working ranges: every call must return (CPU watchdog), stay in [0,1], be monotone along grid lines, reach the end values, satisfy reflection/recurrence/special-case identities, quantile(cdf) inverse to the documented accuracy, give the documented error signal on invalid arguments; a sampled event log is compared offline with independent high-precision values at the documented accuracies (1e-12 normal/beta, 2e-8 gamma-type).",
+         "6/C08"),
+ "C11": ("differential monitor of the transforms against finite differences of the map itself and of a polynomial test double with analytic derivatives (chain rule), feasibility and pass-through probes; " + SAN,
+         "Eight bound configurations x hyperbolic/tangent interval transforms x scales 0.1..10 (unit scale for half-line transforms), originals down to 1e-9 from a bound: round trip, strict monotonicity, first/second derivatives vs Richardson finite differences; wrapper value at the back-transformed point for coordinates in [-30,30], feasibility, chain rule for first/second/cross derivatives, function untouched right after wrapping, unconstrained parameters passed through.",
+         "6/C11"),
+ "C12": ("evaluation-logging polynomial test double; transparency (bitwise parameter equality) and derivative-accuracy oracles from the schemes' Taylor remainders over all entry points; " + SAN,
+         "2/3/5-point schemes, polynomials of degree 0..5 in 1..4 variables with optional boxes, steps 1e-6..1e-2, any subset/order of selected variables, cross derivatives on/off, six update entry points, interior/on-bound/next-to-bound points: after each call the wrapped function sits exactly at the requested point and reports the polynomial's value; derivative error <= 2 x Taylor remainder + rounding (zero remainder where the scheme is exact); ratio test for the convergence order; one-sided fallback finite; unselected variables delegate.",
+         "6/C12"),
+ "C14": ("reference-multigraph + association-map model executed after every public-API call, breadth-first exhaustive exploration of call sequences with memoisation on canonical state, random long histories with a second live observer; " + SAN,
+         "12 configurations (directed/undirected x with/without edge objects x no/explicit/allocated indices), <= 4 nodes, all call sequences to depth 6 (thorough; 4-5 in quick) plus random sequences of 40 calls over <= 8 nodes incl. calls on absent items; after every call every query and iterator of the graph and of the observer is compared with the model and the expected outcome (returns / raises) is checked.",
+         "6/C14"),
+ "C15": ("reference parent-array tree / edge-set DAG model; exhaustive shapes, every re-rooting, every node pair and subset, edit histories with validity queries at random moments (stale caches observable); " + SAN,
+         "All 874 rooted shapes on 1..7 nodes and random trees to 12 nodes x every new root; all digraphs on <= 4 nodes, every DAG shape on 5-6 nodes (all 2^20 digraphs on 5 nodes in thorough); histories mixing addSon/setFather/removeSon/deleteNode/rootAt/unRoot with isValid/isRooted; father/sons/branches/leaves-under/subtree/paths/MRCA against the reference, edge ids and attached objects preserved by re-rooting and by setFather/addSon with an edge object; plain and observer layers.",
+         "6/C15"),
  "C16": ("coverage-guided fuzzing (libFuzzer, clang ASan+UBSan) plus deterministic replay of seeds, seeded structural mutants and the accumulated corpus through the gcc ASan+UBSan+hardened-STL build, outcome classifier (returned / bpp::Exception / foreign exception / abort / hang / allocation ceiling)",
          "Ten entry-point groups (text utilities, tokenisers, keyval, options+variables+typed getters+wildcards, path helpers, table read/edit/write, distribution / interval / formula / vector descriptions); the first input bytes select the entry point and every option. Quick: all committed seeds, 37k seeded mutant cases (8 inputs each), the stored corpus, and 60k libFuzzer executions per group; thorough: 1.4M mutant cases and 9M executions per group. Any outcome other than return or bpp::Exception is a violation; time-outs and RSS/allocation ceilings stand for non-termination/unbounded allocation.",
          "6/C16"),
